@@ -76,6 +76,7 @@ PROBES = [
       "@rpid-android:192.168.0.1|-", "@rpid-android:192.168.0.1|0.1", "@rpid-android:app.co.uk:443|co.uk:443", "@rpid-android:user@co.uk|-",
       "@rpid-android:app.example.com/|example.com/", "@rpid-android:app.example.com|example.com", "@rpid-android:evilexample.com|example.com",
       "@rpid-android:attacker.net/.example.com|example.com", "@rpid-android:user:secret@login.example.com|example.com", "@rpid-android:my app.example.com|example.com",
+      "https://evil-example.com|example.com|0", "https://a_example.com|example.com|0", "@rpid-android:app-example.com|example.com",
       "https://evilexample.com|example.com|0", "https://evillocalhost|localhost|1", "https://aexample.co.uk|example.co.uk|0",
       "https://example.com.evil.org|example.com|0", "https://xexample.com:8443/path|example.com|0"]),
     (re.compile(r"^rpid::.*(registrable|accepted|valid|safety|ascii-form|ascii-input)"), "rpid-web",
@@ -116,8 +117,17 @@ PROBES.insert(0, (re.compile(r"^ad::AuthenticatorData::(new|set_\w+)::"), "authd
                   ["%02x|%d|%d|%s" % (f, a, e, o) for o in ("fae", "afe", "aef", "f") for (a, e) in ((0, 0), (1, 0), (0, 1), (1, 1))
                    for f in (0x00, 0x01, 0x05, 0x40, 0x80, 0xc5)]))
 # the verified table checker says the table and the rule list disagree: the enumeration names a domain that shows it
-PROBES.insert(0, (re.compile(r"^psl::compiled-run"), "psl-enumerate", ["/repo/public-suffix/public_suffix_list.dat"]))
+PROBES.insert(0, (re.compile(r"^psl::"), "psl-enumerate", ["/repo/public-suffix/public_suffix_list.dat"]))
 PROBES.insert(0, (re.compile(r"^dbg::"), "passkey-debug", ["-"]))
+# client-side PRF clauses: hashed and pre-hashed inputs of every length through the real client
+PROBES.insert(0, (re.compile(r"^cli::(convert_eval_to_ctap|make_salt|make_ctap_extension|validate_no_eval_by_cred|registration_prf_to_ctap2_input)::"), "client-prf", ["-"]))
+# U2F request frames with long key handles (the Kani pair is bounded to 0, 1 and 3 bytes), with and without Le
+PROBES.insert(0, (re.compile(r"^u2f::.*try_from::"), "u2f-wf", ["000203000000410104070a0d101316191c1f2225282b2e3134373a3d404346494c4f5255585b5e02070c11161b20252a2f34393e43484d52575c61666b70757a7f84898e93989d00", "000203000000420104070a0d101316191c1f2225282b2e3134373a3d404346494c4f5255585b5e02070c11161b20252a2f34393e43484d52575c61666b70757a7f84898e93989d0103", "000203000001000104070a0d101316191c1f2225282b2e3134373a3d404346494c4f5255585b5e02070c11161b20252a2f34393e43484d52575c61666b70757a7f84898e93989dbf030a11181f262d343b424950575e656c737a81888f969da4abb2b9c0c7ced5dce3eaf1f8ff060d141b222930373e454c535a61686f767d848b9299a0a7aeb5bcc3cad1d8dfe6edf4fb020910171e252c333a41484f565d646b727980878e959ca3aab1b8bfc6cdd4dbe2e9f0f7fe050c131a21282f363d444b525960676e757c838a91989fa6adb4bbc2c9d0d7dee5ecf3fa01080f161d242b323940474e555c636a71787f868d949ba2a9b0b7bec5ccd3dae1e8eff6fd040b121920272e35", "000203000001090104070a0d101316191c1f2225282b2e3134373a3d404346494c4f5255585b5e02070c11161b20252a2f34393e43484d52575c61666b70757a7f84898e93989dc8030a11181f262d343b424950575e656c737a81888f969da4abb2b9c0c7ced5dce3eaf1f8ff060d141b222930373e454c535a61686f767d848b9299a0a7aeb5bcc3cad1d8dfe6edf4fb020910171e252c333a41484f565d646b727980878e959ca3aab1b8bfc6cdd4dbe2e9f0f7fe050c131a21282f363d444b525960676e757c838a91989fa6adb4bbc2c9d0d7dee5ecf3fa01080f161d242b323940474e555c636a71787f868d949ba2a9b0b7bec5ccd3dae1e8eff6fd040b121920272e353c434a51585f666d74", "000203000001400104070a0d101316191c1f2225282b2e3134373a3d404346494c4f5255585b5e02070c11161b20252a2f34393e43484d52575c61666b70757a7f84898e93989dff030a11181f262d343b424950575e656c737a81888f969da4abb2b9c0c7ced5dce3eaf1f8ff060d141b222930373e454c535a61686f767d848b9299a0a7aeb5bcc3cad1d8dfe6edf4fb020910171e252c333a41484f565d646b727980878e959ca3aab1b8bfc6cdd4dbe2e9f0f7fe050c131a21282f363d444b525960676e757c838a91989fa6adb4bbc2c9d0d7dee5ecf3fa01080f161d242b323940474e555c636a71787f868d949ba2a9b0b7bec5ccd3dae1e8eff6fd040b121920272e353c434a51585f666d747b828990979ea5acb3bac1c8cfd6dde4ebf2f900070e151c232a31383f464d545b626970777e858c939aa1a8afb6bdc4cbd2d9e0e7eef5", "000203000001090104070a0d101316191c1f2225282b2e3134373a3d404346494c4f5255585b5e02070c11161b20252a2f34393e43484d52575c61666b70757a7f84898e93989dc8030a11181f262d343b424950575e656c737a81888f969da4abb2b9c0c7ced5dce3eaf1f8ff060d141b222930373e454c535a61686f767d848b9299a0a7aeb5bcc3cad1d8dfe6edf4fb020910171e252c333a41484f565d646b727980878e959ca3aab1b8bfc6cdd4dbe2e9f0f7fe050c131a21282f363d444b525960676e757c838a91989fa6adb4bbc2c9d0d7dee5ecf3fa01080f161d242b323940474e555c636a71787f868d949ba2a9b0b7bec5ccd3dae1e8eff6fd040b121920272e353c434a51585f666d740100", "00030000000100", "00010000000040abababababababababababababababababababababababababababababababababababababababababababababababababababababababababababababababab0000"]))
+# oversized packets: an initialisation packet announcing 200 bytes, then continuations that carry more than 59 bytes
+PROBES.insert(0, (re.compile(r"^hid::(Message::extend|ChannelHandler::handle_packet)::"), "hid-packets",
+                  ["010203049000c8" + "aa" * 57 + ",0102030400" + "bb" * 100 + ",0102030401" + "cc" * 59 + ",0102030402" + "dd" * 59,
+                   "010203049000c8" + "aa" * 57 + ",0102030400" + "bb" * 200,
+                   "0102030490003c" + "aa" * 100 + ",0102030400" + "bb" * 59]))
 PROBES.insert(0, (re.compile(r"^cosek::"), "cose-der", ["32,32", "31,32", "32,33", "0,32", "32,0", "64,64"]))
 # a getInfo response whose transports list (key 0x09) declares 2^26 elements and ends there: 7 bytes of input
 PROBES.insert(0, (re.compile(r"^serdecap::(PossiblyUnknown|IgnoreUnknown)"), "cbor-get-info-response", ["a1099a04000000"]))
@@ -132,6 +142,9 @@ PROBES.append((re.compile(r"^sto::Option::"), "shipped-store", ["option"]))
 PROBES.append((re.compile(r"^sto::MemoryStore::.*finds-what-matches"), "shipped-store", ["memory-idless"]))
 PROBES.append((re.compile(r"^sto::MemoryStore::"), "shipped-store", ["memory-rp", "memory-idless"]))
 # sender: payload lengths around every packet boundary (and the maximum), every byte non-zero so that stale bytes show
+_HID_RT = ["01020304:10:" + "".join("%02x" % (1 + (k * 7) % 250) for k in range(n)) for n in (0, 57, 58, 116, 117, 7550, 7609)]
+PROBES.insert(0, (re.compile(r"^hid::(Message::(extend|init|is_complete)|ChannelHandler::handle_packet|PacketHeader::try_from|InitHeader::try_from|ContHeader::try_from)::.*(ensures|invariant|assert)"),
+                  "hid-roundtrip", _HID_RT + ["@hid-interleave:-"]))
 PROBES.insert(0, (re.compile(r"^hid::Message::(send|to_packets|new)::"), "hid-roundtrip",
                   ["01020304:10:" + "".join("%02x" % (1 + (k * 7) % 250) for k in range(n)) for n in (0, 1, 56, 57, 58, 59, 114, 115, 116, 117, 173, 174, 175, 233, 7608, 7609)]
                   + ["01020304:10:" + "".join("%02x" % (1 + (k * 7) % 250) for k in range(n)) + ":w%d" % w for (n, w) in ((10, 64), (10, 40), (130, 63), (130, 1))]))
@@ -160,21 +173,34 @@ def probe(o, pid=None):
                         "source": "scenario sweep over the property's own finite quantifier on the real ceremonies "
                                   "(the verifier gives no counterexample); the detail names the failing combination"}
         return {"input": None, "reproduced": False, "probes_tried": tried}
-    for rx, entry, args in PROBES:
-        if rx.search(o["id"]):
-            tried = []
-            entry0 = entry
-            for a in args:
-                entry = entry0
-                if a.startswith("@"):   # "@<entry>:<arg>": this input goes to another entry of the replay crate
-                    entry, a = a[1:].split(":", 1)
-                rep = run_replay(entry, a)
-                tried.append({"arg": a[:200], "result": rep})
-                if rep.get("violates"):
-                    return {"input": a, "entry": entry, "reproduced": True, "replay_result": rep,
-                            "source": "boundary input derived from the failed clause (the verifier gives no counterexample)",
-                            "probes_tried": len(tried)}
-            return {"input": None, "reproduced": False, "probes_tried": tried}
+    tried = []
+    matched = False
+    skip = known_inputs(pid) if pid else set()
+    own = set()
+    if pid:
+        from . import findings as _f
+        own = set(k["input"] for k in _f.load() if k["property"] == pid and k["obligation"] == o["id"] and k.get("input"))
+    for rx, entry0, args in PROBES:      # every list that belongs to the obligation, in order
+        if not rx.search(o["id"]):
+            continue
+        matched = True
+        for a in args:
+            entry = entry0
+            if a.startswith("@"):   # "@<entry>:<arg>": this input goes to another entry of the replay crate
+                entry, a = a[1:].split(":", 1)
+            key = "%s %s" % (entry, a)
+            if key in skip and key not in own:
+                continue   # the recorded input of a known finding is evidence for that finding only
+            if any(t["arg"] == a[:200] and t.get("entry") == entry for t in tried):
+                continue
+            rep = run_replay(entry, a)
+            tried.append({"arg": a[:200], "entry": entry, "result": rep})
+            if rep.get("violates"):
+                return {"input": a, "entry": entry, "reproduced": True, "replay_result": rep,
+                        "source": "boundary input derived from the failed clause (the verifier gives no counterexample)",
+                        "probes_tried": len(tried)}
+    if matched:
+        return {"input": None, "reproduced": False, "probes_tried": tried}
     return None
 
 
@@ -229,7 +255,12 @@ def find_input(pid, o):
         return probe(o, pid)
     if fam not in _memo:
         _memo[fam] = _find_input_inner(fam)
-    return _memo[fam]
+    got = _memo[fam]
+    if not (got and got.get("reproduced") and got.get("input") is not None):
+        alt = probe(o, pid)
+        if alt and alt.get("reproduced"):
+            return alt
+    return got
 
 
 def _find_input_inner(fam):
@@ -267,3 +298,39 @@ def _find_input_inner(fam):
                     "pair_tried": tried}
         tried[-1]["replay"] = rep
     return {"input": None, "pair_tried": tried, "reproduced": False}
+
+
+def known_inputs(pid):
+    from . import findings
+    return set(k["input"] for k in findings.load() if k["property"] == pid and k.get("input"))
+
+
+def fallback_probe(pid, units):
+    """The proof is undecided on this tree (a construct outside the dialect, a lost anchor): execute every clause-derived input and
+    scenario sweep that belongs to the property's units on the real code.  A reproduced failure is a violation with a concrete
+    input (it needs no proof); finding none decides nothing."""
+    tried = 0
+    skip = known_inputs(pid)
+    if pid in CEREMONY and "cer" in units:
+        for sc in CEREMONY[pid]:
+            if sc == "c09-enabled-no-prf" or ("ceremony %s" % sc) in skip:
+                continue
+            rep = run_replay("ceremony", sc, timeout=300)
+            tried += 1
+            if rep.get("violates"):
+                return {"entry": "ceremony", "input": sc, "replay_result": rep, "tried": tried}
+    for rx, entry, args in PROBES:
+        pat = rx.pattern
+        if not any(pat.startswith("^%s::" % u) or pat.startswith("^(%s::" % u) or ("(%s::" % u) in pat or ("|%s::" % u) in pat for u in units):
+            continue
+        for a in args:
+            e2 = entry
+            if a.startswith("@"):
+                e2, a = a[1:].split(":", 1)
+            if ("%s %s" % (e2, a)) in skip:
+                continue
+            rep = run_replay(e2, a, timeout=300)
+            tried += 1
+            if rep.get("violates"):
+                return {"entry": e2, "input": a, "replay_result": rep, "tried": tried}
+    return {"entry": None, "input": None, "tried": tried}
